@@ -209,6 +209,13 @@ def o4(tier):
                        f'parse_imeta_tag splits {" <- ".join(chain) or src} (<- {cur}) instead of the tag element itself: the element is transformed ({bad}) before key and value are separated, '
                        'so a file name / MIME type with e.g. trailing whitespace is not what the sender authenticated', p)
             ob.require(str(u(e.args[1])) == '2' and str(u(e.args[2])) == '32', 'O4/imeta-split-shape', f'splitn({u(e.args[1])}, {u(e.args[2])}) is not splitn(2, \' \')', p)
+        # the sender accepts exactly what validate_mime_type / validate_filename accept; the receiver must not apply a second, narrower gate to the validated value
+        for i, e in enumerate(p.trace):
+            if ev_is(e, 'validate_mime_type', 'validate_filename') and e.ret is not None:
+                base = u(e.ret)
+                later = [x for x in p.trace[i + 1:] if any(base and u(a).lstrip('*').startswith(base) for a in x.args)]
+                ob.require(not later, f'O4/imeta-second-gate/{e.short.split("::")[-1]}', f'after {e.short} accepted the value, parse_imeta_tag examines it again with {[x.short for x in later][:3]}: '
+                           'the receiver refuses (or alters) tags the sender legitimately produced, so create_imeta_tag / parse_imeta_tag no longer round-trip', p)
         for e in p.trace:
             if ev_is(e, 'validate_filename', 'validate_mime_type', 'hex::decode', 'decode') and e.args:
                 a = u(e.args[-1] if ev_is(e, 'validate_filename', 'validate_mime_type') else e.args[0])
@@ -236,8 +243,45 @@ def o6(tier):
     return r
 
 
+@guard
+def o7(tier):
+    """the epoch the file was announced in is tried first; the current-epoch key is only a fallback and cannot mask a successful hint"""
+    ob = Ob('O7', 'decrypt_from_download: the key of the epoch recorded with the announcing message is tried FIRST and, when it decrypts, the result is returned without deriving anything for the '
+                  'current epoch (a member of the sharing epoch still decrypts later, also when no secret can be exported for the current epoch, e.g. after having been removed); the fallback '
+                  'runs only after the hint failed', pure=C.PURE_MLS)
+    f = ob.fn(CORE, 'manager::decrypt_from_download')
+    paths = ob.explore(f, [Opaque('self', '&EncryptedMediaManager<Storage>'), Opaque('data', '&[u8]'), Opaque('reference', '&MediaReference')])
+    n_hint = n_fb = 0
+    for p in paths:
+        if p.kind == 'panic':
+            ob.require(False, 'O7/panic', p.msg, p); continue
+        hint = [(i, e) for i, e in enumerate(p.trace) if ev_is(e, 'try_decrypt_with_epoch_hint')]
+        der = [(i, e) for i, e in enumerate(p.trace) if ev_is(e, 'derive_encryption_key')]
+        if not ob.require(bool(hint), 'O7/no-epoch-hint', 'decrypt_from_download does not try the recorded epoch', p):
+            continue
+        ih, eh = hint[0]
+        ob.require(not der or der[0][0] > ih, 'O7/fallback-before-hint', 'the current-epoch key is derived before the recorded epoch was tried: when that derivation fails (no exporter secret for the current epoch) '
+                   'a file of an earlier epoch can no longer be decrypted although its key is stored', p)
+        if ob.eng.prove(p, eh.ret.discriminant() == 0)[0]:
+            n_hint += 1
+            ob.require(vname(p.ret) == 'Ok' and not der, 'O7/hint-success-not-returned', 'the recorded epoch decrypted the file, yet the function goes on (or fails)', p)
+        elif der:
+            n_fb += 1
+    ob.require(n_hint >= 1 and n_fb >= 1, 'O7/vacuity', f'hint-success paths {n_hint}, fallback paths {n_fb}')
+    ob.r.bounds = {'paths': 'all'}
+    return ob.done(cases=len(paths))
+
+
+def o8(tier):
+    """the group image key material (hash, seed, nonce) is stored as published: a re-saved group record overwrites every column"""
+    from props import C10
+    r = C10.o4(tier)
+    r.oid = 'O8'
+    r.title = 'SQLite (shared with C10-O4): re-saving the group record overwrites image_hash / image_key / image_nonce (and every other column) with the new values, so a replaced group image decrypts with the stored seed and nonce'
+    return r
+
 def run(tier, seed, only=None):
-    obs = [('O1', o1), ('O2', o2), ('O3', o3), ('O4', o4), ('O5', o5), ('O6', o6)]
+    obs = [('O1', o1), ('O2', o2), ('O3', o3), ('O4', o4), ('O5', o5), ('O6', o6), ('O7', o7), ('O8', o8)]
     out = []
     for k, f in obs:
         if only and k not in only:
